@@ -30,6 +30,7 @@ CONSTANTS Keys,        \* e.g. {1, 2}
           WithR, WithW, WithA, WithG,
           WKey,        \* key of the autocommit writer and reader
           OldVersions, \* committed versions per key before the actors start (>= 1)
+          HorizonLock, \* TRUE: Begin (draw + register) and the collector (oldest, else fresh draw) exclude each other (sequence.Horizon)
           RangeDraw    \* TRUE: a commit draws its publishing numbers in one step (sequence.NextN); FALSE: one draw per key (as found)
 
 VARIABLES seq, main, crec, files,       \* counter, committed versions per key (<<[seq, val]>>), content records, content files
@@ -149,9 +150,13 @@ RNext(v) ==
   /\ IF loc["R"].rk = 2 * NK THEN Go("R", "done") /\ UNCHANGED loc
      ELSE Go("R", "reg.get") /\ loc' = [loc EXCEPT !["R"].rk = @ + 1]
 
+(* sequence.Horizon, derived from the gates the two actors are parked at while they hold it *)
+HeldByR == HorizonLock /\ WithR /\ pc["R"] \in {"seq.next", "reg.store"}
+HeldByG == HorizonLock /\ WithG /\ pc["G"] \in {"reg.oldest", "g.draw"}
+
 RStep ==
   \/ /\ pc["R"] = "start" /\ Go("R", "begin.enter") /\ UNCHANGED <<seq, main, crec, files, reg, regOrder, lock, loc, res, cmlog>>
-  \/ /\ pc["R"] = "begin.enter" /\ Go("R", "seq.next") /\ UNCHANGED <<seq, main, crec, files, reg, regOrder, lock, loc, res, cmlog>>
+  \/ /\ pc["R"] = "begin.enter" /\ ~HeldByG /\ Go("R", "seq.next") /\ UNCHANGED <<seq, main, crec, files, reg, regOrder, lock, loc, res, cmlog>>
   \/ /\ pc["R"] = "seq.next" /\ seq' = seq + 1 /\ Go("R", "reg.store")
      /\ loc' = [loc EXCEPT !["R"].bseq = seq + 1, !["R"].h = Len(cmlog)]          \* h: publications before the draw (ghost)
      /\ UNCHANGED <<main, crec, files, reg, regOrder, lock, res, cmlog>>
@@ -211,7 +216,7 @@ DeadList(ks) == IF ks = <<>> THEN <<>>
                 ELSE LET k == Head(ks) n == NCollect(main[k], loc["G"].h)
                      IN [i \in 1..n |-> main[k][i].val] \o DeadList(Tail(ks))
 GStep ==
-  \/ /\ pc["G"] = "start" /\ Go("G", "reg.oldest") /\ UNCHANGED <<seq, main, crec, files, reg, regOrder, lock, loc, res, cmlog>>
+  \/ /\ pc["G"] = "start" /\ ~HeldByR /\ Go("G", "reg.oldest") /\ UNCHANGED <<seq, main, crec, files, reg, regOrder, lock, loc, res, cmlog>>
   \/ \* read the registry
      /\ pc["G"] = "reg.oldest"
      /\ IF regOrder = <<>> THEN Go("G", "g.draw") /\ UNCHANGED loc
